@@ -229,11 +229,22 @@ def generate(cls, rng):
     init = dict(clock=rng.choice(CLOCKS), tz=rng.choice(TZ_SETTINGS))
     if cls == "calls":
         ops = []
+        last = None
         for _ in range(rng.randrange(3, 30)):
-            if rng.random() < 0.2:
+            r = rng.random()
+            if r < 0.2:
                 ops.append(gen_world_op(rng))
+            elif r < 0.4 and last is not None:
+                # the same text again, through the same parser, with other
+                # options: nothing of the previous call may carry over
+                c = gen_call(rng)
+                c[1] = last[1]
+                c[2] = _copy.deepcopy(last[2])
+                ops.append(c)
+                last = c
             else:
-                ops.append(gen_call(rng))
+                last = gen_call(rng)
+                ops.append(last)
         return dict(init=init, ops=ops, repeat_seed=rng.getrandbits(30))
     if cls == "stream":
         ops = []
